@@ -489,7 +489,7 @@ func TestExternalCorpus(t *testing.T) {
 		checkParsed(t, test, f.Name, f.Text, pm)
 		hx.NonTrivial(f.Name)
 	}
-	hx.Check(t, test, hx.N(30, 1500), func(rt *rapid.T) {
+	hx.Check(t, test, hx.N(30, 8000), func(rt *rapid.T) {
 		x, desc, ok := mut.Valid(rt)
 		if !ok {
 			hx.Discard("mutated_text_not_valid_or_not_accepted")
@@ -508,7 +508,7 @@ func TestOperandsAndSuccessors(t *testing.T) {
 	const test = "OperandsAndSuccessors"
 	hx.Rule(test, "every instruction and terminator of generated modules, both parsed from text and built through the constructors (optional operands present and absent, variadic lists of any length: call arguments, operand bundles, phi incoming values and predecessors, switch cases, landingpad clauses, gep indices, indirectbr/callbr targets). Completeness: the addresses returned by Operands() must be exactly the addresses of the non-nil value-typed fields found by reflection over the struct and its helper records. Liveness/exactness: a fresh value of the same type written through slot k must appear exactly once in LLString() and substituting it back must give the original text. Successors: Succs() equals the branch targets in order (from the abstract model), all blocks of the function, and follows a target rewritten through its slot. Distinct non-trivial case = module containing a call with bundle, phi, switch, invoke or gep")
 	types.I1.Equal(types.I1)
-	hx.Check(t, test, hx.N(60, 2000), func(rt *rapid.T) {
+	hx.Check(t, test, hx.N(60, 10000), func(rt *rapid.T) {
 		cfg := gen.DefaultCfg()
 		cfg.MaxInsts = 10
 		cfg.Off = map[string]bool{"retattr-align": true, "freeze-metadata": true}
